@@ -8,7 +8,7 @@ import (
 func init() {
 	props = append(props, prop{
 		ID: "C01", Title: "Outbound stream integrity", Level: "fault_enumeration",
-		Rule:        "case = (transport tcp|unix) x (LT|ET|ONESHOT) x socket buffer sizes x 1-2 connections, each with 1-4 writer goroutines (+ writes from OnData) running seeded programs of Write/Writev(1-8 buffers, empty ones included)/Sendfile(offset,length) with sizes 0..4 MiB, against a peer that reads eagerly / slowly / only after all calls returned / late / resets mid-stream. Every payload cell names (call, offset); the received stream must be an interleaving of whole calls respecting program order and real-time order, complete when the connection stayed open (CheckStream), a valid prefix after an error close; err==nil => n==len. Phase real: kernel chooses split points; phase shim: the package's write/writev/sendfile syscalls are routed through a policy that shortens transfers (real prefix transfer), returns EINTR, EAGAIN (LT/ONESHOT only) and injected ECONNRESET/EPIPE/ETIMEDOUT. A connection is non-trivial if the backlog path was really entered: the accessor saw queued bytes after a call, or the shim shortened/refused >=1 transfer, and bytes were verified; distinct by (case, connection)",
+		Rule:        "case = (transport tcp|unix) x (LT|ET|ONESHOT) x socket buffer sizes x 1-2 connections, each with 1-4 writer goroutines (+ writes from OnData) running seeded programs of Write/Writev(1-8 buffers, empty ones included)/Sendfile(offset,length) with sizes 0..4 MiB and Sendfile of files with nothing left to send (empty, or positioned at their end), against a peer that reads eagerly / slowly / only after all calls returned / late / resets mid-stream. Every payload cell names (call, offset); the received stream must be an interleaving of whole calls respecting program order and real-time order, complete when the connection stayed open (CheckStream), a valid prefix after an error close; err==nil => n==len. Phase real: kernel chooses split points; phase shim: the package's write/writev/sendfile syscalls are routed through a policy that shortens transfers (real prefix transfer), returns EINTR, EAGAIN (LT/ONESHOT only) and injected ECONNRESET/EPIPE/ETIMEDOUT. A connection is non-trivial if the backlog path was really entered: the accessor saw queued bytes after a call, or the shim shortened/refused >=1 transfer, and bytes were verified; distinct by (case, connection)",
 		Assumptions: append([]string{"shim phase: injected results are restricted to what a kernel may legally return at that point (no fabricated EAGAIN in plain ET)"}, commonAssumptions...),
 		Phases: []phase{
 			{Name: "real", Pkg: "./workers/c01", QuickShards: 8, ThorShards: 16, QuickTO: 6 * time.Minute},
